@@ -62,6 +62,8 @@ def run_job(modname, job, root_prefix, seed_only, deadline=None):
         _monitor_start()
         mod = importlib.import_module(modname)
         h = mod.make(job)
+        if job.get("tier") == "thorough":
+            h.second_stride, h.second_cap = job.get("second_stride", 25), job.get("second_cap", 12)
         st = explore(h, root_prefix, max_paths=job.get("max_paths", 200000), seed_only=seed_only, deadline=deadline)
         # concolic cross-validation against the unpatched library
         st["validated"] = 0
@@ -125,7 +127,7 @@ def main(argv=None):
     t0 = time.time()
     budget = float(os.environ.get("VERIF_BUDGET_S", "0") or 0) or (900 if a.tier == "quick" else 5400)
     deadline = t0 + budget
-    jobs = mod.jobs(a.tier)
+    jobs = [dict(j, tier=a.tier) for j in mod.jobs(a.tier)]
     if hasattr(mod, "vacuity_jobs"):
         jobs = jobs + [dict(j, twin=True) for j in mod.vacuity_jobs()]
     if a.only:
@@ -253,6 +255,7 @@ def main(argv=None):
         "cut_paths": total.get("cuts", {}),
         "width_guards_proved": total.get("guards", 0),
         "lazy_axioms": total.get("lazy_axioms", 0),
+        "second_solver": total.get("second", {"checked": 0}),
         "validation_skipped": total.get("val_skipped", 0),
         "bounds": meta.get("bounds", {}).get(a.tier, meta.get("bounds")),
         "stubs": meta.get("stubs", []),
